@@ -348,6 +348,7 @@ class HistogramDensityMethod(BatchDetector):
         """
 
         super().reset()
+        self._lambda = self.total_batches
 
         if self.detect_batch == 1:
             # The reference and test data will be (re-)concatenated by the later
